@@ -22,7 +22,8 @@ ALSO = {'C03': {'R03.1': ('the subject matched is the decoded Path as it is', 'r
                    'rm '),
          'R09.5': ('trash-rm looks into every trash directory of a volume', 'rm:')},
  'C15': {'R15.3': 'payload and .trashinfo of a match go together: the info is removed last'},
- 'C19': {'R19.1': ('an unreadable entry must not stop the matching of the others', 'rm:')}}
+ 'C19': {'R19.3': ('every *.trashinfo name in info/ is an entry trash-rm can match (the name filter is the suffix test)', 'rm:'),
+         'R19.1': ('an unreadable entry must not stop the matching of the others', 'rm:')}}
 
 def check(ctx):
     b = ctx.graph('rm')
